@@ -46,7 +46,13 @@ void bsplvb_simple(const double* knots, const unsigned nknots,
 	 * support of the spline surface.
 	 */
 	if (left == degree-1)
-		while (left >= 0 && x < knots[left])
+		/*
+		 * (Also step over an interval of zero width at x: when the
+		 * supported range has collapsed onto a repeated knot, the limit
+		 * from the left is wanted.)
+		 */
+		while (left >= 0 && (x < knots[left] ||
+		    (x == knots[left] && knots[left] == knots[left+1])))
 			left--;
 	if (left == int(nknots)-degree-1)
 		while (left < int(nknots)-1 && x > knots[left+1])
@@ -137,7 +143,13 @@ void bspline_nonzero(const double* knots, const unsigned nknots,
 	 */
 	assert(left >= n && left <= int(nknots)-n-2);
 	if (left == n)
-		while (left >= 0 && x < knots[left])
+		/*
+		 * (Also step over an interval of zero width at x: when the
+		 * supported range has collapsed onto a repeated knot, the limit
+		 * from the left is wanted.)
+		 */
+		while (left >= 0 && (x < knots[left] ||
+		    (x == knots[left] && knots[left] == knots[left+1])))
 			left--;
 	if (left == int(nknots)-n-2)
 		while (left < int(nknots)-1 && x > knots[left+1])
@@ -216,7 +228,13 @@ void bspline_deriv_nonzero(const double* knots, const unsigned nknots,
 	 * support of the spline surface.
 	 */
 	if (left == n)
-		while (left >= 0 && x < knots[left])
+		/*
+		 * (Also step over an interval of zero width at x: when the
+		 * supported range has collapsed onto a repeated knot, the limit
+		 * from the left is wanted.)
+		 */
+		while (left >= 0 && (x < knots[left] ||
+		    (x == knots[left] && knots[left] == knots[left+1])))
 			left--;
 	if (left == int(nknots)-n-2)
 		while (left < int(nknots)-1 && x > knots[left+1])
